@@ -134,6 +134,12 @@ def cases(group):
             c2 = dict(c)
             c2["prefit"] = True  # the same fit on a USED selector (fitted before on other data of the same shape)
             yield c2
+            if c["n"] >= 3:
+                c3 = dict(c)
+                # the same selection reached in two legs (cold to n//2, warm start to n) with an unrelated
+                # selector of the same class fitted on other same-shape data in between
+                c3["split"] = c["n"] // 2
+                yield c3
 
 
 def _cases(group):
@@ -204,7 +210,17 @@ def check(case):
     rec = sel.StepRecorder(s, _snapshot)
     if not rec.ok:
         DEGRADED.add("no per-step snapshots (_update_post_selection not wrappable)")
-    _, exc = sel.fit_quiet(s, X, y)
+    if case.get("split"):
+        s.n_to_select = max(int(case["split"]), len(init) if isinstance(init, list) else 1)
+        _, exc = sel.fit_quiet(s, X, y)
+        if exc is not None:
+            return r.fail("crash:%s" % type(exc).__name__, "first leg: %r" % exc)
+        sibling = sel.sibling_fit(kind, direction, X, y, params)  # noqa: F841 (kept alive)
+        s.n_to_select = n
+        _, exc = sel.fit_quiet(s, X, y, warm_start=True)
+        r.count("two_leg_fits_with_sibling_between")
+    else:
+        _, exc = sel.fit_quiet(s, X, y)
     if exc is not None:  # every configuration of this alphabet is admissible
         return r.fail("crash:%s" % type(exc).__name__, repr(exc))
 
